@@ -38,6 +38,19 @@ CHECKS = {
         "the mutable package-level variables of parser/ and interpreter/ that the instrumenter finds in the current tree (listed in the evidence); "
         "oracle: each concurrent result equals the sequential result, later sequential parses still do, runtime-component ids are pairwise "
         "distinct, no happens-before race on any instrumented variable, no panic"),
+ "C15": dict(engine="engine-A", cat="model_checking", ref="DESIGN.md 4, 7/C15", note=SCHED_NOTE + "; the debugger console is modelled by a driver thread that polls `status` (a yielding sleep) and answers every reported suspension with the next command of its script", tech=SCHED_TECH + " + exhaustive enumeration of breakpoint sets x command scripts under the default schedule",
+   text="(1) for 7 programs (straight line, function calls 1-2 deep, loop, try/raise, if/else, runtime error) every breakpoint subset of <= 2 "
+        "lines x every command script of length <= 2 over {resume, stepin, stepover, stepout} plus stop-all variants is run on fresh real "
+        "debuggers (about 3500 configurations) and compared with the undebugged run (result, log, final variables) and, with break-on-error off, "
+        "with the suspension lines derived from the program's line trace; (2) 10 selected configurations are explored under every schedule "
+        "with <= 2 (thorough 3) preemptions: all timings of the continue / stop command relative to the thread reaching its wait; oracle: the "
+        "thread always leaves suspension (no deadlock / endless polling), no panic, same outcome as undebugged"),
+ "C16": dict(engine="engine-A", cat="model_checking", ref="DESIGN.md 5.3, 7/C16", note="default schedule only (the property is about the command interface, not about timing); canonical state = status output, per-thread (running, error, stack depth, line), breakpoint table and global variables; the debugger lock is read off the vsched shim through an overlay-added export seam", tech="explicit-state breadth-first search over the real debugger object: a state is the command history that reaches it, successors are built on fresh objects by replay, de-duplicated on a canonical observable form, invariant evaluated after every command",
+   text="from 6 debugger states (nothing executed, program finished, thread suspended at top level / 1 / 2 calls deep / on an error with map "
+        "data) every command line of a 140-390 line menu (10 commands + unknown, 0-4 arguments over valid/finished/zero/negative/huge/non-numeric "
+        "thread ids, known/unknown/malformed source:line targets, identifiers, expressions, garbage) is applied in every distinct canonical "
+        "state up to depth 2 (thorough 3); invariant: no panic, result JSON-encodable when the error is nil, debugger lock free afterwards, "
+        "released threads run on without fault, a following status answers and is JSON-encodable, StopThreads releases the thread"),
 }
 
 ENGINES = [
